@@ -16,5 +16,5 @@ one() {
   rm -rf $d
 }
 export -f one; export OUT J
-(ls -d /verif/seeded/*/ | xargs -n1 basename | grep -E "$RX" | sed 's/$/ seed/'; ls /verif/refactorings | grep -E "$RX" | sed 's/$/ refac/') | xargs -P ${RECHECK_PAR:-2} -L 1 bash -c 'one $0 $1'
+(ls -d /verif/seeded/C*/ | xargs -n1 basename | grep -E "$RX" | sed 's/$/ seed/'; ls /verif/refactorings | grep -E "$RX" | sed 's/$/ refac/') | xargs -P ${RECHECK_PAR:-2} -L 1 bash -c 'one $0 $1'
 sort $OUT
